@@ -198,6 +198,9 @@ EvalAst(s, toks, ast) ==
                             u == UnitOf(s, toks, ast.u[1], ast.u[2]) IN
                         IF ~IsVal(x) THEN x
                         ELSE IF u.k = "ood" THEN Ood ELSE IF u.k = "err" THEN Err
+                        \* a unit named twice: the tool may refuse; if it accepts, value and dimensions are those of the product
+                        ELSE IF u.multi THEN (IF \E j \in 1..Len(u.fs) : u.fs[j].u \in UOffsetKeys THEN Ood
+                                              ELSE Opt(FreeVal(RMul(x.v.si, ScaleOfList(u.fs, 1)), DimsOfList(u.fs, 1))))
                         ELSE IF HasOffset(u.c) /\ ~Temperature THEN Ood
                         ELSE Quantity(x.v.si, x.v.q, u.c)
     [] ast.t = "bin" -> LET r == EvalAst(s, toks, ast.r)       \* the tool evaluates the right operand first
@@ -208,7 +211,7 @@ EvalAst(s, toks, ast) ==
                              l == EvalAst(s, toks, ast.l) IN
                          IF u.k = "ood" \/ l.k = "ood" THEN Ood ELSE IF u.k = "err" THEN Err
                          ELSE IF ~IsVal(l) THEN l
-                         ELSE IF IsNoUnit(u.c) THEN Ood
+                         ELSE IF u.multi \/ IsNoUnit(u.c) THEN Ood
                          ELSE Cast(l.v, u.c)
     [] ast.t = "call" -> LET a == EvalArgs(s, toks, ast.args, 1) IN
                          IF ~a.ok THEN a.bad ELSE Builtin(FnName(Text(s, toks[ast.i])), a.vals)
